@@ -26,7 +26,7 @@ TECHNIQUE = "runtime monitoring at the wire boundary of the real DNS layer; diff
 BUDGET = {"quick": (2200, 14), "thorough": (200_000, 200)}
 WORKERS = {"quick": 2, "thorough": 16}
 REQUIRED = ["delivered", "decodes", "same_meaning", "opaque_bytes_equal", "dir.query", "dir.response", "transport.udp", "transport.tcp",
-            "with.rdata_compression", "with.opaque_c0"]
+            "with.rdata_compression", "with.opaque_c0", "with.rdata_exotic_literal", "with.rdata_exotic_behind_pointer"]
 RULE = (
     "case = one client connection (UDP or TCP, TCP streams randomly segmented, random or fifo schedule) carrying 1-3 query/response "
     "exchanges with unique ids; messages are generated from a small zone of names sharing suffixes (LDH, mixed case, underscore, "
@@ -80,13 +80,15 @@ def label_mechanism(labels):
     return None
 
 
-def classify(sent: dict, diff):
-    """Mechanism from properties of the *sent* message (reference decoding of the input) and the position of the difference.
+def classify(sent: dict, diff, wire: bytes):
+    """Mechanism from properties of the *sent* message (its bytes and their reference decoding) and the position of the difference.
 
-    sent: R.decode(...) of the input; diff: first_diff tuple or None when the message was not delivered / not decodable."""
+    sent: R.decode(wire); diff: first_diff tuple or None when the message was not delivered / not decodable.
+    mitmproxy holds question/owner names and the targets of compression pointers as IDNA text; labels written literally inside
+    RDATA are copied, so an exotic label explains a difference only where it is an owner/question label or sits behind a pointer."""
     if diff is None or diff[0] in ("header", "count"):
-        # whole message lost or mangled: only explained by a name mitmproxy's text model cannot represent
-        return label_mechanism(G.all_labels(sent))
+        # whole message lost or mangled: only explained by an owner/question name mitmproxy's text model cannot represent
+        return label_mechanism(G.owner_labels(sent))
     _, sec, i, field, _, _ = diff
     rr = sent[sec][i]
     if field == "name":
@@ -94,9 +96,10 @@ def classify(sent: dict, diff):
     if field == "rdata":
         t = rr["type"]
         names = rr.get("names") or []
-        m = label_mechanism([lab for n in names for lab in n])
-        if m:
-            return m
+        if names and t in G25.MITM_COMPRESSIBLE:
+            m = label_mechanism(G.rdata_name_labels(wire, rr)[1])
+            if m:
+                return m
         if t in G25.MITM_COMPRESSIBLE and G.opaque_has_c0(rr):
             return "scanned-rdata-opaque-octet-ge-0xc0:" + G.TYPE_NAMES.get(t, "other")
         if t in G25.MITM_COMPRESSIBLE and len(names) >= 2 and rr["rdata"] != rr["rdata_expanded"]:
@@ -111,7 +114,7 @@ def run_case(ctx, opts):
     transport = r.choice(["udp", "tcp"])
     ctx.count("transport." + transport)
     hostile = r.random() < 0.12
-    zone = G.Zone(r, hostile=hostile)
+    zone = G.Zone(r, hostile=hostile, rdata_exotic=hostile or r.random() < 0.35)
     # a message the layer rejects takes the connection down with it, so zones with exotic labels carry a single exchange
     n = 1 if hostile else r.choice([1, 1, 2, 3])
     ids = r.sample(range(65536), n)
@@ -194,13 +197,17 @@ def run_case(ctx, opts):
                 ctx.count("with.rdata_compression")
             if any(x.startswith("opaque-c0") for x in mf):
                 ctx.count("with.opaque_c0")
+            if "rdata-exotic-literal" in mf:
+                ctx.count("with.rdata_exotic_literal")
+            if "rdata-exotic-behind-pointer" in mf:
+                ctx.count("with.rdata_exotic_behind_pointer")
             wit = {**base, "direction": direction, "sent": wire[:2500], "sent_len": len(wire), "features": sorted(mf)}
             got = got_by_id.get(mid, [])
             ctx.count("delivered")
             if len(got) != 1:
                 outcomes.add(f"{direction}:delivered-{len(got)}x")
                 ctx.violation(f"{direction}-delivered-{len(got)}-times", {**wit, "got": [g[:300] for g in got_list][:6]},
-                              classify(dec, None) if not got else None)
+                              classify(dec, None, wire) if not got else None)
                 continue
             g = got[0]
             ctx.count("decodes")
@@ -208,7 +215,7 @@ def run_case(ctx, opts):
                 gdec = R.decode(g, allow_trailing=False)
             except R.DecodeError as e:
                 outcomes.add(f"{direction}:undecodable")
-                ctx.violation(f"forwarded-{direction}-not-decodable", {**wit, "got": g[:2500], "error": str(e)}, classify(dec, None))
+                ctx.violation(f"forwarded-{direction}-not-decodable", {**wit, "got": g[:2500], "error": str(e)}, classify(dec, None, wire))
                 continue
             ctx.count("same_meaning")
             diff = first_diff(R.semantic(dec), R.semantic(gdec))
@@ -223,7 +230,7 @@ def run_case(ctx, opts):
             if n_opaque:
                 ctx.count("opaque_bytes_equal", n_opaque)
             if diff is not None:
-                mech = classify(dec, diff)
+                mech = classify(dec, diff, wire)
                 where = diff[3] if diff[0] != "record" else f"{diff[1]}.{diff[3]}"
                 tname = G.TYPE_NAMES.get(dec[diff[1]][diff[2]]["type"], "other") if diff[0] == "record" and diff[1] != "questions" else "-"
                 outcomes.add(f"{direction}:differs:{where}:{tname}")
